@@ -56,6 +56,19 @@ Effective(args, cfg) ==
   IN  [err |-> thrErr \/ namErr \/ jvErr \/ prErr,
        thr |-> thr, names |-> nam, json |-> json, jv |-> jv, prog |-> pr]
 
+\* What kind of run the arguments ask for (git-sizer.go: pflag stops at --help with ErrHelp, which
+\* prints the usage on stdout and exits 0; --version is looked at after parsing, before the repository
+\* is needed; an unknown option is an error wherever it stands before --help).
+\* args here may contain [o |-> "help"], [o |-> "version"], [o |-> "bogus"].
+RunKind(args, inRepo) ==
+  LET idx(name) == {i \in 1..Len(args) : args[i].o = name}
+      first(S) == CHOOSE i \in S : \A j \in S : i <= j
+      helps == idx("help")  bogus == idx("bogus")
+  IN  IF helps # {} /\ (bogus = {} \/ first(helps) < first(bogus)) THEN "usage"
+      ELSE IF bogus # {} THEN "error"
+      ELSE IF idx("version") # {} THEN "version"
+      ELSE IF inRepo THEN "scan" ELSE "error"
+
 \* the canonical command line that must behave identically (no gitconfig)
 Canonical(e) ==
   << [o |-> "threshold", v |-> e.thr], [o |-> "names", v |-> e.names] >>
